@@ -289,6 +289,14 @@ class Exec:
             return s.solver.model() if r == z3.sat else None
         s.fallbacks += 1
         som = getattr(s.lim, 'som', False)
+        if not som:
+            # symbolic*symbolic products / division by non-power-of-2 constants: exact translation to integer arithmetic
+            # (engine/bv2int.py; sat answers are re-validated on the original bit-vector formulas) before bit-blasting for real
+            import bv2int
+            ir = bv2int.try_solve(assumptions, min(s.lim.query_ms, 30000))
+            if ir is not None:
+                dt = time.time() - t; s.qtime += dt; s.qmax = max(s.qmax, dt)
+                return ir[1]
         if som: assumptions = [norm_extracts(a, s.normcache) for a in assumptions]
         stages = ([('som', min(s.lim.query_ms, 3000))] if som else []) + [('plain', s.lim.query_ms)] + ([('som', s.lim.query_ms)] if som else [])
         fs = None
@@ -456,12 +464,42 @@ class Exec:
                 return s.p2i(c0[0])
             raise Inconclusive('integer load of partial pointer bytes')
         hit = s.bytecache.get(tuple(c.get_id() if is_sym(c) else ('c', c) for c in cells)) if n > 1 else None
-        if hit is not None: e = hit[0]
-        else:
-            e = whole_slices(cells) if n > 1 else None
-            if e is None: e = z3.Concat(*[bv(c, 8) for c in reversed(cells)]) if n > 1 else bv(cells[0], 8)
+        e = hit[0] if hit is not None else s.join_cells(cells)
         if isinstance(ty, IntT) and ty.n != n * 8: e = z3.Extract(ty.n - 1, 0, e)
         return simp(e)
+
+    def join_cells(s, cells, depth=0):
+        """bytes -> one value.  Cells merged byte-wise at a join (If(c, a_k, b_k) with a common c) are re-assembled as
+        If(c, A, B) so that the raw Extract slices of explode() recombine to the stored values A and B."""
+        n = len(cells)
+        if depth < 6 and n > 1:
+            c = None
+            for x in cells:
+                if is_sym(x) and z3.is_app_of(x, z3.Z3_OP_ITE): c = x.arg(0); break
+            if c is not None:
+                A = []; B = []
+                for x in cells:
+                    if is_sym(x) and z3.is_app_of(x, z3.Z3_OP_ITE) and x.arg(0).eq(c): A.append(x.arg(1)); B.append(x.arg(2))
+                    else: A.append(x); B.append(x)
+                return z3.If(c, s.join_cells(A, depth + 1), s.join_cells(B, depth + 1))
+        if n == 1: return bv(cells[0], 8)
+        # adjacent raw slices of one term are recombined here (z3 simplifies bottom-up and would first push each
+        # byte extract into its argument, e.g. into an ite, after which the concat no longer folds)
+        pieces = []; run = None
+        for x in cells:
+            if is_sym(x) and z3.is_app_of(x, z3.Z3_OP_EXTRACT):
+                hb, lb = x.params(); t = x.arg(0)
+                if run is not None and run[0].eq(t) and lb == run[2] + 1: run[2] = hb; continue
+                run = [t, lb, hb]; pieces.append(run)
+            else:
+                run = None; pieces.append(x)
+        out = []
+        for q in pieces:
+            if isinstance(q, list):
+                t, lb, hb = q
+                out.append(t if lb == 0 and hb == t.size() - 1 else z3.Extract(hb, lb, t))
+            else: out.append(bv(q, 8))
+        return z3.Concat(*reversed(out)) if len(out) > 1 else out[0]
 
     def same_ptr(s, a, b):
         return a.obj == b.obj and (a.off is b.off or (not is_sym(a.off) and not is_sym(b.off) and a.off == b.off) or (is_sym(a.off) and is_sym(b.off) and a.off.eq(b.off)))
@@ -513,14 +551,18 @@ class Exec:
             if t == 0: return simp(z3.Extract(hi, lo, e))
             if t not in sh: sh[t] = shr_exact(e, t)
             return simp(z3.Extract(hi - t, lo - t, sh[t]))
-        bs = [ext(8 * k + 7, 8 * k) for k in range(n)]
+        # constant bytes become ints; symbolic bytes stay RAW slices of e (z3's simplifier would push the extract into sums / ite,
+        # after which a later load can no longer recombine the bytes to e); the word and its aligned sub-words are also remembered
+        bs = []
+        for k in range(n):
+            x = z3.Extract(8 * k + 7, 8 * k, e); c = simp(x)
+            bs.append(c if not is_sym(c) or n == 1 else x)
         s.remember_bytes(bs, e, ext)
         return bs
 
     def remember_bytes(s, bs, e, ext):
-        """store->load round trip: z3 rewrites the low byte of a product/sum into a product/sum of bytes, after which the
-        concatenation of the bytes no longer simplifies back to the stored word (fatal for arithmetic reasoning).  Remember which
-        word (and which aligned 2/4/8-byte sub-word) a run of byte terms came from; assemble() looks the run up first."""
+        """store->load round trip: remember which word (and which aligned 2/4/8-byte sub-word) a run of byte terms came from;
+        assemble() looks the run up first."""
         n = len(bs)
         if n < 2: return
         for size in sorted(set((2, 4, 8, n))):
@@ -864,7 +906,7 @@ class Exec:
             raise KeyError('frag')
         if not is_sym(x) and not is_sym(y) and x == y: return x
         if is_sym(x) and is_sym(y) and x.eq(y): return x
-        return simp(z3.If(c, bv(x, 8), bv(y, 8)))
+        return z3.If(c, bv(x, 8), bv(y, 8))      # not simplified: see explode()/join_cells()
 
     def try_merge(s, st, fr, ct, a, b, ma, mb):
         fn = fr.fn; ta = s.side_target(fn, a); tb = s.side_target(fn, b)
